@@ -21,6 +21,25 @@ func c20(c *Check) {
 		"REM": "rvesting/keeper.(Keeper).GetRemainingCoin($1, $0, {R}.Denom)",
 		"V":   "μ{cosmos-sdk/types.NewCoins(nil)}",
 	}
+	c.Rule("C20/runs-in-every-block", "the module's BeginBlock runs the vesting step on every path, exactly once, with the block's context and the module's keeper: no height, time or state condition in front of it", 2)
+	{
+		bb := c.F("x/rvesting/module.AppModule.BeginBlock")
+		isBB := func(cs *CallSite) bool { return strings.HasSuffix(cs.Name, "rvesting/module.BeginBlocker") }
+		paths := c.PathCounts(bb, isBB)
+		ok := len(paths) > 0
+		for _, p := range paths {
+			if p.Count != 1 {
+				ok = false
+			}
+		}
+		c.Req(ok, "C20/runs-in-every-block", funcName(bb), bb.Pos(), fmt.Sprint(len(paths), " path(s), one call each"), "a path through AppModule.BeginBlock does not call BeginBlocker exactly once (the vesting step is skipped or repeated in some blocks)")
+		for _, cs := range c.P.CallsIn(bb) {
+			if isBB(cs) {
+				c.ArgIs(cs, "C20/runs-in-every-block", "BeginBlocker.ctx", Macros{}, 0, "$1")
+				c.ArgIs(cs, "C20/runs-in-every-block", "BeginBlocker.keeper", Macros{}, 1, "$0.keeper")
+			}
+		}
+	}
 	c.Rule("C20/begin-blocker", "BeginBlocker: nothing happens unless EnableVesting; per reward the pool balance of that reward's denomination is read, a zero balance is skipped, and exactly one of {balance (if balance < reward), reward (otherwise)} is added; one transfer of the sum, only if non-zero", 14)
 	c.Spec("C20/begin-blocker", m, FnSpec{Fn: "x/rvesting/module.BeginBlocker", Effects: []Eff{
 		{Label: "read-pool", Callee: "rvesting/keeper.(Keeper).GetRemainingCoin", N: 1, Args: map[int]string{0: "$1", 1: "$0", 2: "{R}.Denom"}, Under: []string{"{P}.EnableVesting"}},
